@@ -231,7 +231,8 @@ class _NoDictionary(Exception):
 
 def _udict_dense(nn_state, unitaries):
     if not unitaries and not hasattr(nn_state, "unitary_dict"):
-        raise _NoDictionary()  # the library call itself will raise; nothing to compare
+        # a state without a dictionary of its own: the documented default (Pauli eigenbases)
+        return dict(R.PAULI_BASIS)
     d = unitaries if unitaries else nn_state.unitary_dict
     return {k: dec(v) for k, v in d.items()}
 
